@@ -215,7 +215,8 @@ func portIndexer(y any, p tree.Path) (string, error) {
 		if !ok {
 			protocol = "tcp"
 		}
-		return fmt.Sprintf("%s:%s:%d/%s", host, published, target, protocol), nil
+		// published and target may be written as numbers or as text: same port, same key
+		return fmt.Sprintf("%s:%v:%v/%s", host, published, target, protocol), nil
 	case string:
 		return value, nil
 	}
